@@ -1,4 +1,5 @@
 import AasVerif.Lemmas.RetreeSpec
+import AasVerif.Lemmas.RetreeRound
 import AasVerif.Model.Retree.Render
 import AasVerif.Gen.Retree
 /-!
@@ -126,6 +127,77 @@ theorem parse_outputs_inRange (vs : List Part) (r : Regex) (h : parse vs = .ok r
           · rfl
         · cases hp
   · cases h
+
+/-! ### Round trip
+
+Full statement (DESIGN.md, planned, **not proved** in this round):
+
+    theorem parse_render_id (vs : List Part) (r : Regex) :
+        parse vs = .ok r → parse (render Gen.Retree.escLiteral Gen.Retree.escRange r) = .ok r
+
+It is proved below for the fragment `simpleUnion r`: no character sets, no groups, no
+explicitly encoded (`\x`/`\u`/`\U`) characters, quantifiers `* + ?` (greedy or non-greedy)
+only; formatted values, anchors, the dot, unions, and every plain or escaped literal are
+included.  No counter-example to the full statement is known (the correspondence and the
+oracle test it on every run for all four excluded constructs).
+-/
+
+/-- The renderer's table for character literals of the *current source* has the shape the
+round trip needs: every entry is `\c` with `c` read back by `_parse_char_literal` as the key,
+and every character that starts another kind of term (`^ $ . ( [ * + ? { \ )`) has an entry. -/
+theorem escLiteral_ok : litOk Gen.Retree.escLiteral = true := by decide
+
+/-- Round trip on the fragment, for every tree in the parser's image. -/
+theorem render_parse_inRange_partial (r : Regex) (hin : inRangeTop r = true) (hs : simpleUnion r = true) :
+    parse (render Gen.Retree.escLiteral Gen.Retree.escRange r) = .ok r := by
+  unfold parse render
+  rw [if_pos (wfParts_compress _), flatten_compress]
+  obtain ⟨us⟩ := r
+  unfold inRangeTop at hin
+  cases us with
+  | nil => rfl
+  | cons c cs =>
+    obtain ⟨c⟩ := c
+    simp only [Bool.and_eq_true] at hin
+    have hne : renderUnion Gen.Retree.escLiteral Gen.Retree.escRange (.mk (.mk c :: cs)) ≠ [] := by
+      intro h
+      simp only [renderUnion, renderConcat] at h
+      have hin1 := hin.1
+      simp only [inRangeUnion, inRangeConcats, Bool.and_eq_true] at hin1
+      simp only [simpleUnion, simpleConcats, Bool.and_eq_true] at hs
+      have hc := renderTerms_nil_of _ _ escLiteral_ok c _ hin1.1 hs.1 h
+      subst hc
+      simp only [renderTerms, List.nil_append] at h
+      cases cs with
+      | nil => simp at hin
+      | cons x xs => obtain ⟨x⟩ := x; simp only [renderAlts] at h; cases h
+    have hrt := rt_union Gen.Retree.escLiteral Gen.Retree.escRange escLiteral_ok c cs
+      (fuelFor (renderUnion Gen.Retree.escLiteral Gen.Retree.escRange (.mk (.mk c :: cs)))) hin.1 hs hne
+    have hnc := parseToks_never_crashes (renderUnion Gen.Retree.escLiteral Gen.Retree.escRange (.mk (.mk c :: cs))) .fuel
+    unfold parseToks at hnc ⊢
+    rcases hrt with hrt | hrt
+    · rw [hrt]; simp
+    · rw [hrt] at hnc; exact absurd rfl hnc
+
+/-- **Round trip (fragment).** If `parse` returns a tree of the fragment, parsing its rendering
+returns the same tree. -/
+theorem parse_render_id_partial (vs : List Part) (r : Regex) (h : parse vs = .ok r) (hs : simpleUnion r = true) :
+    parse (render Gen.Retree.escLiteral Gen.Retree.escRange r) = .ok r :=
+  render_parse_inRange_partial r (parse_outputs_inRange vs r h) hs
+
+/-- **Rendering is idempotent (fragment).** Rendering the re-parsed rendering gives the same values. -/
+theorem render_idempotent_partial (vs : List Part) (r r' : Regex) (h : parse vs = .ok r) (hs : simpleUnion r = true)
+    (h' : parse (render Gen.Retree.escLiteral Gen.Retree.escRange r) = .ok r') :
+    render Gen.Retree.escLiteral Gen.Retree.escRange r' = render Gen.Retree.escLiteral Gen.Retree.escRange r := by
+  rw [parse_render_id_partial vs r h hs] at h'
+  injection h' with h'
+  rw [h']
+
+/-- non-vacuity: `^a\.{x}*?|\$$` with a formatted value is in the fragment and in the image -/
+example : inRangeTop (.mk [.mk [.mk (.sym .start) none, .mk (.char ⟨97, false⟩) none, .mk (.char ⟨46, false⟩) none,
+      .mk (.fv 0) (some ⟨true, 0, none⟩)], .mk [.mk (.char ⟨36, false⟩) none, .mk (.sym .stop) none]]) = true
+    ∧ simpleUnion (.mk [.mk [.mk (.sym .start) none, .mk (.char ⟨97, false⟩) none, .mk (.char ⟨46, false⟩) none,
+      .mk (.fv 0) (some ⟨true, 0, none⟩)], .mk [.mk (.char ⟨36, false⟩) none, .mk (.sym .stop) none]]) = true := by decide
 
 /-! ### Concrete instances (non-vacuity; the witnesses of the repaired defects) -/
 
